@@ -393,6 +393,9 @@ def byte_pred(prog, f, e, env, tables):
         return env.get(nm)
     if k == 'ArraySubscriptExpr':
         b = strip(children(s)[0])
+        if env.get('*') is not None and env.get('?neutral') and (qtype(b) or '').rstrip().endswith('*') and \
+                (b.get('referencedDecl') or {}).get('name') not in tables:
+            return env['*']             # str[i]: the byte under the scan index (strrules, index form of a cursor loop)
         idx = byte_pred(prog, f, children(s)[1], env, tables)
         if idx is None:
             return None
